@@ -295,8 +295,12 @@ theorem getAttrU_object (ns : List String) (ts : List Ty) (os : List Bool) (vs :
     getAttrU ⟨.object ns ts os, .smap ns vs⟩ name = .ok ⟨t, p⟩ := by
   simp [getAttrU, ht, Value.isKnown, Payload.isKnown, Payload.unmark1, hv, Ty.isDyn]
 
+theorem intVal_notNull (i : Int) : (intVal i).isNull = false := by
+  simp [intVal, numVal, Value.isNull, Payload.isNull, Payload.unmark1]
+
 /-- an index step whose key names a member of the (unmarked) container -/
 theorem index_apply (a key r : Value) (hnull : a.isNull = false) (hk : key.isMarked = false)
+    (hkn : key.isNull = false)
     (hty : (key.ty = .number ∧ PathStep.isListOrTuple a.ty = true) ∨
       (key.ty = .string ∧ PathStep.isMap a.ty = true))
     (hhas : hasIndexU a.unmark key = .ok (boolVal true)) (hidx : indexU a.unmark key = .ok r) :
@@ -308,9 +312,9 @@ theorem index_apply (a key r : Value) (hnull : a.isNull = false) (hk : key.isMar
     rw [hE.unmark_eq]; rfl
   simp only [PathStep.apply, hnull, Bool.false_eq_true, if_false]
   rcases hty with ⟨h1, h2⟩ | ⟨h1, h2⟩
-  · simp only [h1, h2, if_true, Value.hasIndex, hh, hu]
+  · simp only [h1, h2, if_true, Value.hasIndex, hh, hu, hkn, Bool.false_eq_true, if_false]
     simpa [boolVal, Value.isKnown, Payload.isKnown, Payload.unmark1, Value.isTrue, Value.index] using hi
-  · simp only [h1, h2, if_true, Value.hasIndex, hh, hu]
+  · simp only [h1, h2, if_true, Value.hasIndex, hh, hu, hkn, Bool.false_eq_true, if_false]
     simpa [boolVal, Value.isKnown, Payload.isKnown, Payload.unmark1, Value.isTrue, Value.index] using hi
 
 /-! ### one step, then a whole path -/
@@ -361,7 +365,7 @@ theorem step_apply {X : SetOracle} (w a : Value) (M : List String) (hE : Extra w
     obtain ⟨q, hq, rfl⟩ := seqKids_get e vs 0 j sc hj
     simp only [Nat.zero_add]
     have hlt : j < vs.length := (List.getElem?_eq_some_iff.mp hq).1
-    exact index_apply a _ ⟨e, q⟩ hanull (intVal_props _).2.1
+    exact index_apply a _ ⟨e, q⟩ hanull (intVal_props _).2.1 (intVal_notNull _)
       (Or.inl ⟨(intVal_props _).1, by simp [haty, PathStep.isListOrTuple]⟩)
       (by rw [hau']; exact hasIndexU_list e vs j hlt hsu.1)
       (by rw [hau']; exact indexU_list e vs j q hq hsu.1)
@@ -369,7 +373,7 @@ theorem step_apply {X : SetOracle} (w a : Value) (M : List String) (hE : Extra w
     rename_i e ks vs
     simp only [shaped, Bool.and_eq_true, decide_eq_true_eq, beq_iff_eq] at hsu
     obtain ⟨k, q, hkj, hq, rfl⟩ := mapKids_get e ks vs j sc hj
-    exact index_apply a _ ⟨e, q⟩ hanull rfl
+    exact index_apply a _ ⟨e, q⟩ hanull rfl rfl
       (Or.inr ⟨rfl, by simp [haty, PathStep.isMap]⟩)
       (by rw [hau']; exact hasIndexU_map e ks vs k (List.mem_of_getElem? hkj))
       (by rw [hau']; exact indexU_map e ks vs k q (lookupKey_get ks vs j k q hsu.1.2 hkj hq))
@@ -380,7 +384,7 @@ theorem step_apply {X : SetOracle} (w a : Value) (M : List String) (hE : Extra w
     simp only [Nat.zero_add]
     have hlt : j < ts.length := (List.getElem?_eq_some_iff.mp ht).1
     have hlen : (ts.length : Int) ≤ maxInt := by rw [hsu.1.1]; exact hsu.1.2
-    exact index_apply a _ ⟨t', q⟩ hanull (intVal_props _).2.1
+    exact index_apply a _ ⟨t', q⟩ hanull (intVal_props _).2.1 (intVal_notNull _)
       (Or.inl ⟨(intVal_props _).1, by simp [haty, PathStep.isListOrTuple]⟩)
       (by rw [hau']; exact hasIndexU_tuple ts vs j hlt hlen)
       (by rw [hau']; exact indexU_tuple ts vs j t' q ht hq hlen)
